@@ -255,6 +255,12 @@ def r2_cache_copies(ctx) -> None:
                 p = prog.parent(c)
                 if isinstance(p, ast.Call) and call_name(p) in ("copy.deepcopy", "deepcopy") and p.args and p.args[0] is c:
                     r.ok("C15.R2", q, f"copy.deepcopy({short(c, 60)})", loc)
+                elif isinstance(p, (ast.Assign, ast.AnnAssign)) and p.value is c and isinstance((p.targets[0] if isinstance(p, ast.Assign) else p.target), ast.Name) \
+                        and (uses := [u for u in ast.walk(fi.node) if isinstance(u, ast.Name) and isinstance(u.ctx, ast.Load) and u.id == (p.targets[0] if isinstance(p, ast.Assign) else p.target).id]) \
+                        and all(isinstance(pu := prog.parent(u), ast.Call) and call_name(pu) in ("copy.deepcopy", "deepcopy") and pu.args and pu.args[0] is u for u in uses) \
+                        and sum(1 for st_ in ast.walk(fi.node) if isinstance(st_, (ast.Assign, ast.AnnAssign, ast.AugAssign, ast.For, ast.NamedExpr, ast.With)) and any(
+                            isinstance(t_, ast.Name) and t_.id == uses[0].id and isinstance(t_.ctx, ast.Store) for t_ in ast.walk(st_))) == 1:
+                    r.ok("C15.R2", q, f"{short(p, 70)}: the cached object is held in a local whose only use is copy.deepcopy({uses[0].id})", loc)
                 else:
                     r.violation("C15.R2", q, short(prog.enclosing_stmt(c), 140),
                                 f"result of cached function {cf.qual} is used without copy.deepcopy: the cached parse tree is shared "
